@@ -470,8 +470,8 @@ def drive(mod, tier, base_seed, groups, runs_per_group, budget_s, opts=None):
       try:
         absorb(json.loads(info['buf'].decode()))
       except ValueError:
-        merged['harness_errors'].append('group %d: booter died (%d bytes of output)' % (
-          info['gi'], len(info['buf'])))
+        merged['harness_errors'].append('group %d: booter died or was killed after %.0fs (%d bytes of output)' % (
+          info['gi'], time.time() - info['t'], len(info['buf'])))
     hard = (budget_s or 600) * 4 + 120
     for fd, info in list(live.items()):
       if time.time() - info['t'] > hard:
